@@ -6,6 +6,7 @@ from vlib import cgen, pgen, ref
 from vlib.harness import SubCheck, must, require
 
 PROPERTY_ID = "C04"
+TECHNIQUE = 'property-based testing (Hypothesis) of asymmetric circuits against a numpy state-vector reference; every view compared with the same bit-numbering oracle'
 RULE = (
     "Asymmetric circuits on n<=4 (5 thorough) qubits: X on a drawn subset (deterministic "
     "bits), rotations/entanglers on the remaining qubits; simulator seed and both sample-count "
